@@ -5,6 +5,7 @@ use std::collections::BTreeSet;
 use monlib::{guarded_mut, json, panic_sig, Report};
 use rand::rngs::StdRng;
 use rand::Rng;
+use refchess::gen;
 use refchess::*;
 
 use crate::adapter::*;
@@ -135,6 +136,7 @@ pub fn check_carried(p: &Pos, bb: &mut inkayaku_board::Bitboard, rep: &mut Repor
 }
 
 pub fn check(p: &Pos, rep: &mut Report, rng: &mut StdRng, perft_every: u32, perft_depth: usize) {
+    if rng.gen_range(0..12) == 0 { line_by_make_all_uci(p, rep, rng); }
     rep.eval();
     let fen = p.to_fen();
     let replay = json!({"kind":"c01","fen":fen});
@@ -244,5 +246,40 @@ pub fn check(p: &Pos, rep: &mut Report, rng: &mut StdRng, perft_every: u32, perf
     }
     if rep.samples.len() < 6 && !ref_noisy.is_empty() && rng.gen_range(0..50) == 0 {
         rep.sample(json!({"fen": fen, "legal_moves": reference.len(), "captures_or_promotions": ref_noisy.len()}));
+    }
+}
+
+/// A board brought to a position by ONE `make_all_uci` call over a whole line (the third way a
+/// user reaches a position, next to make() and make_uci()): it must offer the move set of the
+/// position the rules reach. Lines revisit squares (quiet move first, capture on the same squares
+/// later, another piece on the same squares, out-and-back shuffles).
+pub fn line_by_make_all_uci(p: &Pos, rep: &mut Report, rng: &mut StdRng) {
+    let fen = p.to_fen();
+    let n = if rng.gen_range(0..4) == 0 { rng.gen_range(60..=200) } else { rng.gen_range(2..=60) };
+    let policy = gen::POLICIES[rng.gen_range(0..3)];
+    let (ps, ms) = gen::walk(rng, p, policy, n);
+    if ms.is_empty() { return; }
+    let ucis: Vec<String> = ms.iter().map(|m| m.uci()).collect();
+    let end = ps.last().unwrap();
+    let reference: BTreeSet<String> = end.legal_moves().iter().map(|m| m.uci()).collect();
+    let r = guarded_mut(|| {
+        let mut bb = load(p)?;
+        bb.make_all_uci(&ucis).map_err(|e| format!("make_all_uci rejected a legal line: {:?}", e))?;
+        Ok::<_, String>(bb.generate_legal_moves().iter().map(|m| m.to_uci_string()).collect::<Vec<_>>())
+    });
+    rep.eval();
+    rep.count("lines_applied_by_make_all_uci");
+    let replay = json!({"kind":"c01-line","fen":fen,"moves":ucis});
+    match r {
+        Err(pm) => rep.violation(&format!("line-by-make_all_uci-{}", panic_sig(&pm)), format!("panicked from {}: {}", fen, pm), replay),
+        Ok(Err(e)) => rep.violation("line-by-make_all_uci-refused", format!("{} from {}", e, fen), replay),
+        Ok(Ok(v)) => {
+            let seen: BTreeSet<String> = v.iter().cloned().collect();
+            if seen != reference || seen.len() != v.len() {
+                let extra: Vec<&String> = seen.difference(&reference).collect();
+                let missing: Vec<&String> = reference.difference(&seen).collect();
+                rep.violation(&format!("after-make_all_uci-line:{}", if !extra.is_empty() { "extra" } else if !missing.is_empty() { "missing" } else { "duplicate" }), format!("after {} moves from {} by make_all_uci the board should be {}: extra {:?} missing {:?}", ucis.len(), fen, end.to_fen(), extra, missing), replay);
+            }
+        }
     }
 }
